@@ -5,6 +5,7 @@ package main
 // per process; thorough runs fork one process per configuration.
 
 import (
+	_ "embed"
 	"fmt"
 	"go/token"
 	"go/types"
@@ -20,6 +21,11 @@ import (
 	"golang.org/x/tools/go/ssa"
 	"golang.org/x/tools/go/ssa/ssautil"
 )
+
+//go:embed ctl/ctl_linux.go.txt
+var ctlLinux string
+
+const ctlFileName = "zz_verif_ctl_overlay.go"
 
 type Config struct{ GOOS, GOARCH string }
 
@@ -49,9 +55,59 @@ type Program struct {
 	Sizes  types.Sizes
 
 	nFuncsModule int
+	// positive controls (in-memory overlay file)
+	Ctl     bool   // overlay loaded and type-checked
+	CtlNote string // why controls are unavailable
+	ctlMode bool   // srcFuncs returns only control functions
+}
+
+// isCtl: function belongs to the positive-control overlay.
+func isCtl(f *ssa.Function) bool {
+	for x := f; x != nil; x = x.Parent() {
+		if strings.HasPrefix(x.Name(), "zzCtl") {
+			return true
+		}
+	}
+	return false
 }
 
 func loadProgram(repo string, cfg Config) (*Program, error) {
+	if cfg.GOOS == "linux" && os.Getenv("VERIF_NO_CONTROLS") == "" {
+		p, err := loadProgramOverlay(repo, cfg, map[string][]byte{filepath.Join(repo, ctlFileName): []byte(ctlLinux)})
+		if err == nil {
+			p.Ctl = true
+			return p, nil
+		}
+		if !strings.Contains(err.Error(), ctlFileName) {
+			return nil, err
+		}
+		// the control file does not type-check against this tree (an internal name it uses was changed):
+		// analyse without controls and say so.
+		p, err2 := loadProgramOverlay(repo, cfg, nil)
+		if err2 != nil {
+			return nil, err2
+		}
+		p.CtlNote = "positive controls unavailable on this tree: " + firstLine(err.Error())
+		return p, nil
+	}
+	p, err := loadProgramOverlay(repo, cfg, nil)
+	if p != nil {
+		p.CtlNote = "no positive-control overlay for this backend"
+	}
+	return p, err
+}
+
+func firstLine(s string) string {
+	if i := strings.IndexByte(s, '\n'); i >= 0 {
+		s = s[:i]
+	}
+	if len(s) > 300 {
+		s = s[:300]
+	}
+	return s
+}
+
+func loadProgramOverlay(repo string, cfg Config, overlay map[string][]byte) (*Program, error) {
 	env := []string{}
 	for _, kv := range os.Environ() {
 		if strings.HasPrefix(kv, "GOWORK=") || strings.HasPrefix(kv, "GOOS=") || strings.HasPrefix(kv, "GOARCH=") ||
@@ -65,8 +121,9 @@ func loadProgram(repo string, cfg Config) (*Program, error) {
 	pc := &packages.Config{
 		Mode:  packages.LoadAllSyntax,
 		Dir:   repo,
-		Env:   env,
-		Tests: false,
+		Env:     env,
+		Tests:   false,
+		Overlay: overlay,
 	}
 	pkgs, err := packages.Load(pc, "./...")
 	if err != nil {
@@ -112,7 +169,7 @@ func loadProgram(repo string, cfg Config) (*Program, error) {
 	}
 	p.All = ssautil.AllFunctions(prog)
 	for f := range p.All {
-		if p.inModule(f) {
+		if p.inModule(f) && !isCtl(f) {
 			p.nFuncsModule++
 		}
 	}
@@ -207,7 +264,9 @@ func (p *Program) mainFiles() []string {
 	for _, pk := range p.Pkgs {
 		if pk.Types == p.MainTy {
 			for _, f := range pk.GoFiles {
-				out = append(out, filepath.Base(f))
+				if filepath.Base(f) != ctlFileName {
+					out = append(out, filepath.Base(f))
+				}
 			}
 		}
 	}
@@ -219,7 +278,7 @@ func (p *Program) mainFiles() []string {
 func (p *Program) srcFuncs(pkg *ssa.Package) []*ssa.Function {
 	var out []*ssa.Function
 	for f := range p.All {
-		if fnPkg(f) == pkg && f.Blocks != nil && f.Synthetic == "" {
+		if fnPkg(f) == pkg && f.Blocks != nil && f.Synthetic == "" && isCtl(f) == p.ctlMode {
 			out = append(out, f)
 		}
 	}
